@@ -59,10 +59,11 @@ Proof. exact unknown_attrs_decoded. Qed.
 
 (* every message type, every body: decoded, or refused with a defined (code, subcode); never another error.
    Hypotheses: the contracts of the abstracted value decoders, enough stack (a loop, or a body of at most
-   3*(limit-1) octets), and not a ROUTE-REFRESH whose subtype is not 0, 1 or 2 (see the refutation below) *)
+   3*(limit-1) octets), not a ROUTE-REFRESH whose subtype is not 0, 1 or 2, and not an OPERATIONAL advisory while
+   its constructor refuses the buffer it is handed (see the two refutations below) *)
 Theorem C03_only_defined_outcomes_partial : forall vdec capv addpath limit ty (b : bytes),
   vdec_contract vdec -> capv_contract capv -> enough_stack limit b ->
-  ~ refresh_unknown_subtype ty b ->
+  ~ refresh_unknown_subtype ty b -> advisory_decodable ty b ->
   match dec_message vdec capv addpath limit ty b with
   | Decoded _ => True
   | Refused c s => rfc_defined c s = true
@@ -75,6 +76,12 @@ Proof. exact message_defined. Qed.
 Theorem C03_only_defined_outcomes_refuted : forall vdec capv addpath limit,
   dec_message vdec capv addpath limit 5 [0; 1; 3; 1] = Refused 7 2 /\ rfc_defined 7 2 = false.
 Proof. exact refresh_subtype_refused. Qed.
+
+(* ... and while Advisory.ADM/ASM.__init__ only converts `bytes` and `str`, an advisory (ADM, afi 1 safi 1, text "\001")
+   read from the network (a memoryview) raises AttributeError *)
+Theorem C03_advisory_crash : forall vdec capv addpath limit, ADVISORY_ACCEPTS_BUFFER = false ->
+  dec_message vdec capv addpath limit 6 [0; 1; 0; 3; 0; 1; 1] = PyError K_ATTRIBUTE.
+Proof. exact advisory_crash. Qed.
 
 (* the split refuses exactly when the two length fields do not fit, and otherwise cuts the body where they say *)
 Theorem C03_sections : forall b : bytes, byte_list b ->
@@ -109,5 +116,6 @@ Print Assumptions C03_valid_unknown_attrs_not_refused.
 Print Assumptions C03_valid_unknown_attrs_decoded.
 Print Assumptions C03_only_defined_outcomes_partial.
 Print Assumptions C03_only_defined_outcomes_refuted.
+Print Assumptions C03_advisory_crash.
 Print Assumptions C03_sections.
 Print Assumptions C03_linear_steps.
